@@ -22,7 +22,7 @@ from .. import multi
 ID = "C11"
 LEVEL = "exploration"
 RULE = ("random rules over 1-3 variables: head V3(f1=x_first, f2=<attribute chain | method call | constant>, f3=x_last), "
-        "optionally given positionally, or head W(v=Tag(o=x_first), g=x_first, h=..., l=x_last) whose nested term selects "
+        "optionally given positionally; a head argument that is a flattened expression also constrained by the body (one instance per element); a head argument expression that an earlier evaluated query used as its condition; or head W(v=Tag(o=x_first), g=x_first, h=..., l=x_last) whose nested term selects "
         "the existing Tag objects of that binding (given with From(tags) or through the registry; 0-2 tags per object); bodies of depth 0-3 with "
         "conjunction, disjunction (leaving head variables unbound on one side), negation, predicates, bodies with zero "
         "solutions; caching on and off; the head mentions every variable of the rule (the statement's premise). "
@@ -67,7 +67,7 @@ def plan(tier, seed):
 def floors(tier):
     return {"distinct_nontrivial": 500, "cls:nested": 300, "cls:flat": 1000, "cls:body:or": 500, "cls:body:not": 100,
             "cls:zero_solutions": 100, "cls:positional": 100, "cls:nvars=2": 300, "cls:nvars=3": 300,
-            "cls:caching_off": 300, "instances_checked": 5000, "cls:f2:const": 100, "cls:f2:call": 50}
+            "cls:caching_off": 300, "instances_checked": 5000, "cls:f2:const": 100, "cls:f2:call": 50, "cls:special:flatten": 150, "cls:special:preused_as_condition": 150}
 
 
 def gen_case(rng):
@@ -83,11 +83,23 @@ def gen_case(rng):
         f2 = ["v", mid, rng.choice(paths)]
     else:
         f2 = ["lit", rng.choice([1, 2, "c", 7])]
-    nested = rng.random() < 0.3
+    special = None
+    r = rng.random()
+    if r < 0.12 and "P" in kinds and nv <= 2:      # (with 3 variables the middle one would not occur in the head)
+        # a flattened expression in the head and in the body: one instance per element that satisfies the body
+        special = {"kind": "flatten", "var": kinds.index("P"), "thr": rng.randint(0, 3), "order": rng.random() < 0.5}
+        f2 = ["lit", "flattened-element"]
+    elif r < 0.2:
+        # the head argument is an expression object that an earlier, already evaluated query used as its condition
+        vi = mid
+        f2 = ["v", vi, ([["a", "p"]] if kinds[vi] == "Q" else []) + [["a", "flag"]]]
+        special = {"kind": "preused_as_condition"}
+    nested = rng.random() < 0.3 and special is None
     n0 = len(world[kinds[0]])
     tags = [[rng.randrange(n0), rng.randint(1, 3)] for _ in range(rng.randint(0, n0 + 2))] if nested else []
     return {"world": world, "kinds": kinds, "cond": cond, "f2": f2, "nested": nested, "tags": tags,
-            "nested_how": rng.choice(["from", "registry"]), "positional": rng.random() < 0.15, "caching": rng.random() < 0.7}
+            "nested_how": rng.choice(["from", "registry"]), "positional": rng.random() < 0.15, "caching": rng.random() < 0.7,
+            "special": special}
 
 
 def cases(spec, ctx):
@@ -109,6 +121,13 @@ def expected(case, world, tags=()):
     doms = H.domains(world, case["kinds"])
     out = []
     for asg in itertools.product(*doms):
+        sp = case.get("special") or {}
+        if sp.get("kind") == "flatten":
+            if C.holds(case["cond"], asg):
+                for e in asg[sp["var"]].t:
+                    if e > sp["thr"]:
+                        out.append((m[id(asg[0])], _enc(m, e), m[id(asg[-1])]))
+            continue
         if C.holds(case["cond"], asg):
             row = (m[id(asg[0])], _enc(m, C.ev(case["f2"], asg)), m[id(asg[-1])])
             if case["nested"]:
@@ -131,15 +150,32 @@ def run(case, world, caching, times=1, tags=()):
     doms = H.domains(world, case["kinds"])
     (enable_caching if caching else disable_caching)()
     try:
+        sp = case.get("special") or {}
+        pre = None
+        if sp.get("kind") == "preused_as_condition":
+            from entity_query_language import symbolic_mode, an
+            with symbolic_mode():
+                xs = H.declare(case["kinds"], doms)
+                shared_f2 = C.bval(case["f2"], xs)
+                pre = an(entity(xs[case["f2"][1]], shared_f2))
+            list(pre.evaluate())        # the expression object has now been evaluated in condition position
         with rule_mode():
-            xs = H.declare(case["kinds"], doms)
-            f1, f2, f3 = xs[0], C.bval(case["f2"], xs), xs[-1]
+            if pre is None:
+                xs = H.declare(case["kinds"], doms)
+            f1, f2, f3 = xs[0], (shared_f2 if pre is not None else C.bval(case["f2"], xs)), xs[-1]
+            extra_conds = []
+            if sp.get("kind") == "flatten":
+                from entity_query_language.entity import flatten
+                f2 = flatten(xs[sp["var"]].t)
+                extra_conds = [f2 > sp["thr"]]
             if case["nested"]:
                 term = Tag(From(list(tags)), o=xs[0]) if case["nested_how"] == "from" else Tag(o=xs[0])
                 head = W(v=term, g=f1, h=f2, l=f3)
             else:
                 head = V3(f1, f2, f3) if case["positional"] else V3(f1=f1, f2=f2, f3=f3)
-            q = infer(entity(head, C.build(case["cond"], xs, 0, False)))
+            body = [C.build(case["cond"], xs, 0, False)]
+            body = extra_conds + body if sp.get("order") else body + extra_conds
+            q = infer(entity(head, *body))
         outs = []
         for _ in range(times):
             rows, problems, objs = [], [], []
@@ -190,6 +226,8 @@ def check_case(case, ctx):
         ctx.nontrivial()
     if case["nested"]:
         ctx.cls("cls:nested:" + case["nested_how"])
+    if case.get("special"):
+        ctx.cls("cls:special:" + case["special"]["kind"])
     try:
         rows, problems = run(case, world, case["caching"], tags=tags)[0]
     except Exception as e:
